@@ -69,3 +69,340 @@ theorem starN_run {β : Type} (s : List Char) (P : Nat → Bool) (G : St → Lis
       rw [hrec]; simp [Nat.add_assoc, Nat.add_comm 1]
 
 end Shk.Tpl
+
+namespace Shk.Tpl
+open Shk.Re
+
+theorem ms_strThen (s : List Char) (K : Re) (c : Caps) : ∀ (w tail : List Char) (p : Nat),
+    s.drop p = w ++ tail → ms s (Re.strThen (w.map Char.toNat) K) ⟨p, c⟩ = ms s K ⟨p + w.length, c⟩ := by
+  intro w
+  induction w with
+  | nil => intro tail p _; simp [Re.strThen]
+  | cons x w ih =>
+    intro tail p hd
+    have h1 : s[p]? = some x := getElem?_of_drop (by simpa using hd)
+    have hd' : s.drop (p + 1) = w ++ tail := drop_succ_of_drop (by simpa using hd)
+    simp only [List.map_cons, Re.strThen, ms, stepChar, h1, beq_self_eq_true, if_true, List.flatMap_cons,
+      List.flatMap_nil, List.append_nil]
+    rw [ih tail (p + 1) hd']
+    simp [Nat.add_assoc, Nat.add_comm 1]
+
+theorem isWS_not_isNS (ch : Char) (h : isWS ch = true) : isNS ch = false := by
+  unfold isWS isNS inRanges WS NS at *
+  simp only [List.any_cons, List.any_nil, Bool.or_false, Bool.or_eq_true, Bool.and_eq_true,
+    decide_eq_true_eq] at h
+  simp only [List.any_cons, List.any_nil, Bool.or_false, Bool.or_eq_false_iff, Bool.and_eq_false_iff,
+    decide_eq_false_iff_not]
+  omega
+
+theorem isNS_not_isWS (ch : Char) (h : isNS ch = true) : isWS ch = false := by
+  cases hw : isWS ch with
+  | false => rfl
+  | true => rw [isWS_not_isNS ch hw] at h; exact absurd h (by simp)
+
+theorem space_isWS : isWS ' ' = true := by decide
+
+end Shk.Tpl
+
+namespace Shk.Tpl
+open Shk.Re
+
+theorem ms_cls (s : List Char) (rs : List (Nat × Nat)) (st : St) : ms s (.cls rs) st = stepChar s (inRanges rs) st := rfl
+
+/-- `\s+` over exactly one blank -/
+theorem ms_ws (s : List Char) (K : Re) (c : Caps) (p : Nat) (tail : List Char)
+    (hd : s.drop p = ' ' :: tail) (hp : p ≤ s.length) (ht : headNotWS tail = true) :
+    ms s (.cat (.plus true (.cls WS)) K) ⟨p, c⟩ = ms s K ⟨p + 1, c⟩ := by
+  have h1 : s[p]? = some ' ' := getElem?_of_drop hd
+  have hd' : s.drop (p + 1) = [] ++ tail := by simpa using drop_succ_of_drop hd
+  have hstep : stepChar s (inRanges WS) ⟨p, c⟩ = [⟨p + 1, c⟩] := by
+    unfold stepChar; simp [h1]; exact space_isWS
+  have hlen := length_of_drop hd hp
+  have := starN_run s (inRanges WS) (ms s K) c [] tail (p + 1) (s.length - (p + 1)) hd'
+    (by simp) (by
+      intro ch t' he; subst he
+      simpa [headNotWS, isWS] using ht) (by simp) (by simp)
+  simp only [ms, hstep, List.flatMap_cons, List.flatMap_nil, List.append_nil]
+  have h2 : (fun st => stepChar s (inRanges WS) st) = stepChar s (inRanges WS) := rfl
+  simpa using this
+
+/-- what follows a word rejects a position that holds a non-blank character -/
+theorem rejects (s : List Char) : ∀ (T : List Tok) (f : Fin), afterWord T f = true →
+    ∀ (p : Nat) (c : Caps) (ch : Char), s[p]? = some ch → isNS ch = true → ms s (compile T f) ⟨p, c⟩ = [] := by
+  intro T f haw p c ch hch hns
+  have hlt : p < s.length := (List.getElem?_eq_some_iff.mp hch).1
+  have hws : inRanges WS ch.toNat = false := isNS_not_isWS ch hns
+  match T, f, haw with
+  | [], .eot, _ =>
+    simp only [compile, ms]; rw [if_neg (by omega)]
+  | [], .wsEot, _ =>
+    have hstep : stepChar s (inRanges WS) ⟨p, c⟩ = [] := by unfold stepChar; simp [hch, hws]
+    simp only [compile, ms]
+    cases hn : s.length - p with
+    | zero => omega
+    | succ n =>
+      simp only [starN, if_true, hstep, List.filter_nil, List.flatMap_nil, List.nil_append,
+        List.flatMap_cons, List.append_nil]
+      rw [if_neg (by omega)]
+  | .ws :: T', f, _ =>
+    have hstep : stepChar s (inRanges WS) ⟨p, c⟩ = [] := by unfold stepChar; simp [hch, hws]
+    simp [compile, ms, hstep]
+
+/-- `(\S+)` over a maximal word, followed by something that needs a blank or the end -/
+theorem ms_word (s : List Char) (T : List Tok) (f : Fin) (i : Nat) (nm : Option String) (c : Caps) (p : Nat)
+    (w tail : List Char) (hd : s.drop p = w ++ tail) (hp : p ≤ s.length) (hne : w ≠ [])
+    (hall : w.all isNS = true) (htail : ∀ ch t', tail = ch :: t' → isNS ch = false)
+    (haw : afterWord T f = true) :
+    ms s (.cat (.group i nm (.plus true (.cls NS))) (compile T f)) ⟨p, c⟩
+      = ms s (compile T f) ⟨p + w.length, (i, (p, p + w.length)) :: c⟩ := by
+  cases w with
+  | nil => exact absurd rfl hne
+  | cons x w =>
+    have hx : isNS x = true := by simp at hall; exact hall.1
+    have hw : ∀ y ∈ w, inRanges NS y.toNat = true := by
+      intro y hy; simp at hall; exact hall.2 y hy
+    have h1 : s[p]? = some x := getElem?_of_drop (by simpa using hd)
+    have hd' : s.drop (p + 1) = w ++ tail := drop_succ_of_drop (by simpa using hd)
+    have hstep : stepChar s (inRanges NS) ⟨p, c⟩ = [⟨p + 1, c⟩] := by
+      unfold stepChar; simp [h1]; exact hx
+    have hlen := length_of_drop hd hp
+    let G : St → List St := fun t => ms s (compile T f) { t with caps := (i, (p, t.pos)) :: t.caps }
+    have hG : ∀ k, k < w.length → G ⟨p + 1 + k, c⟩ = [] := by
+      intro k hk
+      have hget : s[p + 1 + k]? = w[k]? := by
+        have := List.getElem?_drop (xs := s) (i := p + 1) (j := k)
+        rw [hd'] at this
+        rw [← this, List.getElem?_append_left hk]
+      have hwk : w[k]? = some w[k] := List.getElem?_eq_getElem hk
+      exact rejects s T f haw (p + 1 + k) _ w[k] (by rw [hget, hwk]) (hw _ (List.getElem_mem hk))
+    have := starN_run s (inRanges NS) G c w tail (p + 1) (s.length - (p + 1)) hd' hw
+      (by intro ch t' he; exact htail ch t' he) (by simp at hlen; omega) hG
+    simp only [ms, hstep, List.flatMap_cons, List.flatMap_nil, List.append_nil, List.flatMap_map]
+    have h2 : (fun st => stepChar s (inRanges NS) st) = stepChar s (inRanges NS) := rfl
+    simp only [G] at this
+    rw [show (p + (x :: w).length) = p + 1 + w.length by simp; omega]
+    simpa using this
+
+/-- `(.*)$` takes everything that is left -/
+theorem ms_rest (s : List Char) (i : Nat) (nm : Option String) (c : Caps) (p : Nat) (r : List Char)
+    (hd : s.drop p = r) (hp : p ≤ s.length) :
+    ms s (.cat (.group i nm (.star true .any)) .eot) ⟨p, c⟩ = [⟨s.length, (i, (p, p + r.length)) :: c⟩] := by
+  have hlen := length_of_drop hd hp
+  let G : St → List St := fun t => ms s .eot { t with caps := (i, (p, t.pos)) :: t.caps }
+  have hG : ∀ k, k < r.length → G ⟨p + k, c⟩ = [] := by
+    intro k hk; simp only [G, ms]; rw [if_neg (by omega)]
+  have := starN_run s (fun _ => true) G c r [] p (s.length - p) (by simpa using hd) (by simp)
+    (by intro ch t' he; cases he) (by omega) hG
+  simp only [ms, List.flatMap_map]
+  simp only [G, ms] at this
+  rw [hlen] at this ⊢
+  simp only [Nat.add_sub_cancel_left, if_true] at this ⊢
+  exact this
+
+end Shk.Tpl
+
+namespace Shk.Tpl
+open Shk.Re
+
+theorem drop_add_of_drop {s : List Char} {p : Nat} {w t : List Char} (h : s.drop p = w ++ t) :
+    s.drop (p + w.length) = t := by
+  have : s.drop (p + w.length) = (s.drop p).drop w.length := by simp [List.drop_drop, Nat.add_comm]
+  rw [this, h]; simp
+
+theorem tail_after_word (T : List Tok) (f : Fin) (ws : List (List Char)) (r : List Char)
+    (haw : afterWord T f = true) : ∀ ch t', render T f ws r = ch :: t' → isNS ch = false := by
+  intro ch t' he
+  match T, f, haw with
+  | [], .eot, _ => simp [render] at he
+  | [], .wsEot, _ => simp [render] at he
+  | .ws :: T', f, _ =>
+    simp only [render, List.cons.injEq] at he
+    rw [← he.1]; exact isWS_not_isNS ' ' space_isWS
+
+/-- the matcher on a rendered clause line is deterministic: exactly one way, to the end of the line -/
+theorem ms_compile (s : List Char) : ∀ (T : List Tok) (f : Fin) (words : List (List Char)) (r : List Char)
+    (p : Nat) (c : Caps), Ok T f words r = true → s.drop p = render T f words r → p ≤ s.length →
+    ms s (compile T f) ⟨p, c⟩ = [⟨s.length, capsOf T f words r p ++ c⟩] := by
+  intro T
+  induction T with
+  | nil =>
+    intro f words r p c _ hd hp
+    cases f with
+    | rest i nm =>
+      simp only [render] at hd
+      simpa [compile, capsOf] using ms_rest s i nm c p r hd hp
+    | eot =>
+      simp only [render] at hd
+      have hlen := length_of_drop hd hp
+      simp at hlen
+      simp [compile, ms, capsOf, hlen]
+    | wsEot =>
+      simp only [render] at hd
+      have hlen := length_of_drop hd hp
+      simp at hlen
+      simp [compile, ms, capsOf, hlen, starN]
+  | cons tok T ih =>
+    intro f words r p c hok hd hp
+    cases tok with
+    | lit w =>
+      simp only [render] at hd
+      simp only [Ok] at hok
+      have hlen := length_of_drop hd hp
+      simp at hlen
+      simp only [compile, capsOf]
+      rw [ms_strThen s _ c w _ p hd]
+      exact ih f words r (p + w.length) c hok (drop_add_of_drop hd) (by omega)
+    | ws =>
+      simp only [render] at hd
+      simp only [Ok, Bool.and_eq_true] at hok
+      have hlen := length_of_drop hd hp
+      simp at hlen
+      simp only [compile, capsOf]
+      rw [ms_ws s _ c p _ hd hp hok.1]
+      exact ih f words r (p + 1) c hok.2 (drop_succ_of_drop hd) (by omega)
+    | word i nm =>
+      cases words with
+      | nil => simp [Ok] at hok
+      | cons w ws =>
+        simp only [render] at hd
+        simp only [Ok, Bool.and_eq_true, Bool.not_eq_true', List.isEmpty_eq_false_iff] at hok
+        obtain ⟨⟨⟨hne, hall⟩, haw⟩, hok'⟩ := hok
+        have hlen := length_of_drop hd hp
+        simp at hlen
+        simp only [compile, capsOf]
+        rw [ms_word s T f i nm c p w _ hd hp hne hall (tail_after_word T f ws r haw) haw]
+        rw [ih f ws r (p + w.length) _ hok' (drop_add_of_drop hd) (by omega)]
+        simp [List.append_assoc]
+
+end Shk.Tpl
+
+namespace Shk.Tpl
+open Shk.Re
+
+theorem capsOf_keys : ∀ (T : List Tok) (f : Fin) (words : List (List Char)) (r : List Char) (p : Nat),
+    Ok T f words r = true → (capsOf T f words r p).map (·.1) = groupsOf T f := by
+  intro T
+  induction T with
+  | nil => intro f words r p _; cases f <;> simp [capsOf, groupsOf]
+  | cons tok T ih =>
+    intro f words r p hok
+    cases tok with
+    | lit w => simp only [Ok] at hok; simpa [capsOf, groupsOf] using ih f words r _ hok
+    | ws => simp only [Ok, Bool.and_eq_true] at hok; simpa [capsOf, groupsOf] using ih f words r _ hok.2
+    | word i nm =>
+      cases words with
+      | nil => simp [Ok] at hok
+      | cons w ws =>
+        simp only [Ok, Bool.and_eq_true] at hok
+        simp [capsOf, groupsOf, ih f ws r _ hok.2]
+
+theorem fieldsOf_keys : ∀ (T : List Tok) (f : Fin) (words : List (List Char)) (r : List Char),
+    Ok T f words r = true → (fieldsOf T f words r).map (·.1) = groupsOf T f := by
+  intro T
+  induction T with
+  | nil => intro f words r _; cases f <;> simp [fieldsOf, groupsOf]
+  | cons tok T ih =>
+    intro f words r hok
+    cases tok with
+    | lit w => simp only [Ok] at hok; simpa [fieldsOf, groupsOf] using ih f words r hok
+    | ws => simp only [Ok, Bool.and_eq_true] at hok; simpa [fieldsOf, groupsOf] using ih f words r hok.2
+    | word i nm =>
+      cases words with
+      | nil => simp [Ok] at hok
+      | cons w ws =>
+        simp only [Ok, Bool.and_eq_true] at hok
+        simp [fieldsOf, groupsOf, ih f ws r hok.2]
+
+theorem slice_prefix {s : List Char} {p : Nat} {w t : List Char} (h : s.drop p = w ++ t) :
+    slice s p (p + w.length) = w := by
+  unfold slice; rw [h]; simp
+
+/-- every capture span cuts its field out of the line -/
+theorem caps_are_fields (s : List Char) : ∀ (T : List Tok) (f : Fin) (words : List (List Char)) (r : List Char)
+    (p : Nat), Ok T f words r = true → s.drop p = render T f words r →
+    (capsOf T f words r p).map (fun e => (e.1, slice s e.2.1 e.2.2)) = fieldsOf T f words r := by
+  intro T
+  induction T with
+  | nil =>
+    intro f words r p _ hd
+    cases f with
+    | rest i nm =>
+      simp only [render] at hd
+      have : slice s p (p + r.length) = r := slice_prefix (t := []) (by simpa using hd)
+      simp [capsOf, fieldsOf, this]
+    | eot => simp [capsOf, fieldsOf]
+    | wsEot => simp [capsOf, fieldsOf]
+  | cons tok T ih =>
+    intro f words r p hok hd
+    cases tok with
+    | lit w =>
+      simp only [render] at hd; simp only [Ok] at hok
+      simpa [capsOf, fieldsOf] using ih f words r _ hok (drop_add_of_drop hd)
+    | ws =>
+      simp only [render] at hd; simp only [Ok, Bool.and_eq_true] at hok
+      simpa [capsOf, fieldsOf] using ih f words r _ hok.2 (drop_succ_of_drop hd)
+    | word i nm =>
+      cases words with
+      | nil => simp [Ok] at hok
+      | cons w ws =>
+        simp only [render] at hd; simp only [Ok, Bool.and_eq_true] at hok
+        have := ih f ws r _ hok.2 (drop_add_of_drop hd)
+        simp [capsOf, fieldsOf, this, slice_prefix hd]
+
+theorem lookup_of_mem_nodup {k : Nat} {v : Nat × Nat} : ∀ {l : Caps}, (l.map (·.1)).Nodup → (k, v) ∈ l →
+    l.lookup k = some v := by
+  intro l
+  induction l with
+  | nil => intro _ h; cases h
+  | cons e l ih =>
+    intro hnd hm
+    obtain ⟨k', v'⟩ := e
+    simp only [List.map_cons, List.nodup_cons] at hnd
+    simp only [List.mem_cons, Prod.mk.injEq] at hm
+    by_cases hk : k = k'
+    · subst hk
+      rcases hm with ⟨_, hv⟩ | hm
+      · subst hv; simp [List.lookup]
+      · exact absurd (List.mem_map.mpr ⟨(k, v), hm, rfl⟩) hnd.1
+    · rcases hm with ⟨hk', _⟩ | hm
+      · exact absurd hk' hk
+      · have : (k == k') = false := by simp [hk]
+        simp only [List.lookup, this]
+        exact ih hnd.2 hm
+
+end Shk.Tpl
+
+namespace Shk.Tpl
+open Shk.Re
+
+theorem ngroups_strThen (w : List Nat) (K : Re) : ngroups (Re.strThen w K) = ngroups K := by
+  induction w with
+  | nil => rfl
+  | cons c w ih => simp [Re.strThen, ngroups, ih]
+
+theorem group_le_ngroups : ∀ (T : List Tok) (f : Fin) (i : Nat), i ∈ groupsOf T f → i ≤ ngroups (compile T f) := by
+  intro T
+  induction T with
+  | nil => intro f i h; cases f <;> simp [groupsOf, compile, ngroups] at h ⊢; omega
+  | cons tok T ih =>
+    intro f i h
+    cases tok with
+    | lit w => simp only [groupsOf] at h; simpa [compile, ngroups_strThen] using ih f i h
+    | ws => simp only [groupsOf] at h; have := ih f i h; simp [compile, ngroups]; omega
+    | word j nm =>
+      simp only [groupsOf, List.mem_append, List.mem_singleton] at h
+      simp only [compile, ngroups]
+      rcases h with h | h
+      · have := ih f i h; omega
+      · omega
+
+/-- `run` on a rendered line: the one way found by `ms_compile` -/
+theorem run_render (T : List Tok) (f : Fin) (words : List (List Char)) (r : List Char)
+    (hok : Ok T f words r = true) :
+    run (re T f) (render T f words r)
+      = some (spans (ngroups (re T f)) 0 ⟨(render T f words r).length, capsOf T f words r 0⟩) := by
+  have h := ms_compile (render T f words r) T f words r 0 [] hok (by simp) (by simp)
+  simp only [run, re, ms, if_true, List.flatMap_cons, List.flatMap_nil, List.append_nil, h]
+  simp
+
+end Shk.Tpl
